@@ -47,72 +47,77 @@ structure Pool (σ : Type) where
   create : Nat → σ → Bool × σ
   kill : Bool → Nat → σ → Bool × σ
   start : Nat → Nat → σ → Bool × σ
-  shutdown : Nat → σ → σ
 
-/-- loop state -/
+/-- loop state: the pool, runQueue's local copy of `unalloc`, and the `dontstart` latch -/
 structure RQ (σ : Type) where
   pool : σ
   unalloc : Nat → Int
-  dont : Nat → Bool          -- dontstart
-  tr : List Ev
+  dont : Nat → Bool
 
 variable {σ : Type}
-
-def emit (s : RQ σ) (e : Ev) : RQ σ := { s with tr := s.tr ++ [e] }
 
 def dec (f : Nat → Int) (t : Nat) : Nat → Int := fun x => if x = t then f x - 1 else f x
 
 def setTrue (f : Nat → Bool) (t : Nat) : Nat → Bool := fun x => if x = t then true else f x
 
-/-- lines 86–98: the `dontstart` latch, KillContainer("about to start"), StartContainer -/
-def tryStart (P : Pool σ) (e : Ent) (s : RQ σ) : RQ σ :=
-  if s.dont e.ty = true then s
+/-- lines 86–98: the `dontstart` latch, KillContainer("about to start"), StartContainer.
+Returns the new state and the calls made. -/
+def tryStart (P : Pool σ) (e : Ent) (s : RQ σ) : RQ σ × List Ev :=
+  if s.dont e.ty = true then (s, [])
   else
     let k := P.kill true e.uuid s.pool
-    let s1 := emit { s with pool := k.2 } (.kill true e.uuid k.1)
-    if k.1 = true then s1
+    if k.1 = true then ({ s with pool := k.2 }, [.kill true e.uuid true])
     else
-      let r := P.start e.ty e.uuid s1.pool
-      let s2 := emit { s1 with pool := r.2 } (.start e.ty e.uuid r.1)
-      if r.1 = true then s2 else { s2 with dont := setTrue s2.dont e.ty }
+      let r := P.start e.ty e.uuid k.2
+      if r.1 = true then
+        ({ s with pool := r.2 }, [.kill true e.uuid false, .start e.ty e.uuid true])
+      else
+        ({ s with pool := r.2, dont := setTrue s.dont e.ty },
+         [.kill true e.uuid false, .start e.ty e.uuid false])
 
 /-- `case arvados.ContainerStateLocked` (lines 61–98); the Bool is `break tryrun` -/
-def stepLocked (P : Pool σ) (e : Ent) (s : RQ σ) : RQ σ × Bool :=
-  if s.unalloc e.ty > 0 then (tryStart P e { s with unalloc := dec s.unalloc e.ty }, false)
+def stepLocked (P : Pool σ) (e : Ent) (s : RQ σ) : RQ σ × List Ev × Bool :=
+  if s.unalloc e.ty > 0 then
+    let r := tryStart P e { s with unalloc := dec s.unalloc e.ty }
+    (r.1, r.2, false)
   else
     let q := P.atQuota s.pool
-    let s1 := { s with pool := q.2 }
-    if q.1 = true then (emit s1 (.unlock e.uuid), true)
+    if q.1 = true then ({ s with pool := q.2 }, [.unlock e.uuid], true)
     else
-      let c := P.create e.ty s1.pool
-      let s2 := emit { s1 with pool := c.2 } (.create e.uuid e.ty c.1)
-      if c.1 = true then (tryStart P e s2, false) else (s2, false)
+      let c := P.create e.ty q.2
+      if c.1 = true then
+        let r := tryStart P e { s with pool := c.2 }
+        (r.1, .create e.uuid e.ty true :: r.2, false)
+      else ({ s with pool := c.2 }, [.create e.uuid e.ty false], false)
 
 /-- `case arvados.ContainerStateQueued` (lines 49–60) -/
-def stepQueued (P : Pool σ) (e : Ent) (s : RQ σ) : RQ σ × Bool :=
+def stepQueued (P : Pool σ) (e : Ent) (s : RQ σ) : RQ σ × List Ev × Bool :=
   let q := if s.unalloc e.ty < 1 then P.atQuota s.pool else (false, s.pool)
-  let s1 := { s with pool := q.2 }
-  if q.1 = true then (s1, true)
+  if q.1 = true then ({ s with pool := q.2 }, [], true)
   else
-    let k := P.kill false e.uuid s1.pool
-    let s2 := emit { s1 with pool := k.2 } (.kill false e.uuid k.1)
-    if k.1 = true then (s2, false)
-    else (emit { s2 with unalloc := dec s2.unalloc e.ty } (.lockgo e.uuid), false)
+    let k := P.kill false e.uuid q.2
+    if k.1 = true then ({ s with pool := k.2 }, [.kill false e.uuid true], false)
+    else ({ s with pool := k.2, unalloc := dec s.unalloc e.ty },
+          [.kill false e.uuid false, .lockgo e.uuid], false)
 
 /-- body of the `tryrun` loop for one entry -/
-def stepEnt (P : Pool σ) (e : Ent) (s : RQ σ) : RQ σ × Bool :=
-  if e.running = true ∨ e.prio < 1 then (s, false)
+def stepEnt (P : Pool σ) (e : Ent) (s : RQ σ) : RQ σ × List Ev × Bool :=
+  if e.running = true ∨ e.prio < 1 then (s, [], false)
   else match e.st with
     | .queued => stepQueued P e s
     | .locked => stepLocked P e s
-    | .other => (s, false)
+    | .other => (s, [], false)
 
-/-- the `tryrun` loop; returns the final state and `overquota` (= `sorted[i:]` at the break) -/
-def loop (P : Pool σ) : List Ent → RQ σ → RQ σ × List Ent
-  | [], s => (s, [])
+/-- the `tryrun` loop; returns the final state, the calls made, and `overquota`
+(= `sorted[i:]` at the break, empty if the loop ran to the end) -/
+def loop (P : Pool σ) : List Ent → RQ σ → RQ σ × List Ev × List Ent
+  | [], s => (s, [], [])
   | e :: rest, s =>
     let r := stepEnt P e s
-    if r.2 = true then (r.1, e :: rest) else loop P rest r.1
+    if r.2.2 = true then (r.1, r.2.1, e :: rest)
+    else
+      let q := loop P rest r.1
+      (q.1, r.2.1 ++ q.2.1, q.2.2)
 
 /-- lines 108–118: unlock every Locked entry of `overquota` -/
 def unlockTail : List Ent → List Ev
@@ -120,26 +125,22 @@ def unlockTail : List Ent → List Ev
   | e :: rest => if e.st = .locked then .unlock e.uuid :: unlockTail rest else unlockTail rest
 
 /-- lines 121–126: one Shutdown per instance type that still has unallocated workers -/
-def shutdownIdle (P : Pool σ) (unalloc : Nat → Int) : List Nat → RQ σ → RQ σ
-  | [], s => s
-  | t :: ks, s =>
-    if unalloc t < 1 then shutdownIdle P unalloc ks s
-    else shutdownIdle P unalloc ks (emit { s with pool := P.shutdown t s.pool } (.shutdown t))
+def shutdownIdle (unalloc : Nat → Int) : List Nat → List Ev
+  | [] => []
+  | t :: ks => if unalloc t < 1 then shutdownIdle unalloc ks else .shutdown t :: shutdownIdle unalloc ks
 
-/-- everything after the loop -/
-def finish (P : Pool σ) (keys : List Nat) (r : RQ σ × List Ent) : RQ σ :=
-  if r.2 = [] then r.1
-  else
-    let s1 := { r.1 with tr := r.1.tr ++ unlockTail r.2 }
-    shutdownIdle P s1.unalloc keys s1
+/-- everything after the loop (`if len(overquota) > 0 { ... }`) -/
+def finish (keys : List Nat) (unalloc : Nat → Int) (tail : List Ent) : List Ev :=
+  if tail = [] then [] else unlockTail tail ++ shutdownIdle unalloc keys
 
 def initRQ (p0 : σ) (unalloc : Nat → Int) : RQ σ :=
-  { pool := p0, unalloc := unalloc, dont := fun _ => false, tr := [] }
+  { pool := p0, unalloc := unalloc, dont := fun _ => false }
 
-/-- one `runQueue` pass for one outcome `sorted` of the priority sort and one iteration order
-`keys` of the `unalloc` map -/
-def runQueue (P : Pool σ) (p0 : σ) (unalloc : Nat → Int) (keys : List Nat) (sorted : List Ent) : RQ σ :=
-  finish P keys (loop P sorted (initRQ p0 unalloc))
+/-- the ordered trace of calls of one `runQueue` pass, for one outcome `sorted` of the priority sort
+and one iteration order `keys` of the `unalloc` map -/
+def runQueue (P : Pool σ) (p0 : σ) (unalloc : Nat → Int) (keys : List Nat) (sorted : List Ent) : List Ev :=
+  let r := loop P sorted (initRQ p0 unalloc)
+  r.2.1 ++ finish keys r.1.unalloc r.2.2
 
 /-- what `sort.Slice(sorted, prio[i] > prio[j])` over the map-ordered snapshot guarantees -/
 structure IsSorted (entries sorted : List Ent) : Prop where
@@ -176,6 +177,5 @@ def stubPool : Pool Stub where
     | .alwaysOK => (true, p)
     | .byIdle => if p.idle t = 0 then (false, p)
                  else (true, { p with idle := fun x => if x = t then p.idle x - 1 else p.idle x })
-  shutdown := fun _ p => p
 
 end ArvVerif.C16.RQ
